@@ -4,7 +4,7 @@
    the stream / canon instructions ([esi]) and the end-of-run compactification ([fs]) are universally
    quantified parameters restricted by hypotheses of the same shape as the conclusions. *)
 From Coq Require Import Sorted.
-From Aqua Require Import Base Json Air Trace Handler Values Scalars Lens Exec RunExec CallSpec IdsSpec ExecInv IdsProofs.
+From Aqua Require Import Base Json Air Trace Handler Values Scalars Lens Exec RunExec ExecStreams CallSpec IdsSpec ExecInv IdsProofs.
 Open Scope N_scope.
 Open Scope list_scope.
 
@@ -25,6 +25,15 @@ Proof. exact C06_fresh_run_holds. Qed.
    increasing, pairwise distinct, larger than the starting counter *)
 Theorem C06_fresh_runs : C06_fresh_runs_stmt.
 Proof. exact C06_fresh_runs_holds. Qed.
+
+(* the same for the full executor with streams, canon, new, stream folds (ExecStreams.v: run2 is what the
+   lock-step compares with the implementation), with no hypothesis left *)
+Theorem C06_fresh_run2 : C06_fresh_run2_stmt.
+Proof. exact C06_fresh_run2_holds. Qed.
+Theorem C06_fresh_runs2 : C06_fresh_runs2_stmt.
+Proof. exact C06_fresh_runs2_holds. Qed.
+Theorem C06_exec2 : C06_exec2_stmt.
+Proof. exact C06_exec2_holds. Qed.
 
 (* the counter of the current data does not influence anything *)
 Theorem C06_lcid_from_prev : C06_lcid_from_prev_stmt.
@@ -84,6 +93,9 @@ Proof. split; [apply no_streams_preserves | split; [apply no_streams_preserves |
 Print Assumptions C06_fresh_exec.
 Print Assumptions C06_fresh_run.
 Print Assumptions C06_fresh_runs.
+Print Assumptions C06_fresh_run2.
+Print Assumptions C06_fresh_runs2.
+Print Assumptions C06_exec2.
 Print Assumptions C06_lcid_from_prev.
 Print Assumptions C06_routing_call.
 Print Assumptions C06_results_take.
